@@ -8,6 +8,24 @@ pub struct Counting;
 pub static LIVE_BYTES: AtomicI64 = AtomicI64::new(0);
 pub static LIVE_BLOCKS: AtomicI64 = AtomicI64::new(0);
 pub static TOTAL_ALLOCS: AtomicU64 = AtomicU64::new(0);
+pub static TRACE_ON: std::sync::atomic::AtomicBool = std::sync::atomic::AtomicBool::new(false);
+pub static TRACE_IDX: AtomicU64 = AtomicU64::new(0);
+#[allow(clippy::declare_interior_mutable_const)]
+const Z: AtomicI64 = AtomicI64::new(0);
+pub static TRACE_LOG: [AtomicI64; 8192] = [Z; 8192];
+fn trace(sz: i64, p: *mut u8) {
+    if TRACE_ON.load(Ordering::Relaxed) {
+        let i = TRACE_IDX.fetch_add(2, Ordering::Relaxed) as usize;
+        if i + 1 < 8192 { TRACE_LOG[i].store(sz, Ordering::Relaxed); TRACE_LOG[i + 1].store(p as i64, Ordering::Relaxed); }
+    }
+}
+pub fn trace_report() -> Vec<(i64, i64)> {
+    let n = (TRACE_IDX.load(Ordering::SeqCst) as usize).min(8192);
+    let mut live: Vec<(i64, i64)> = Vec::new();
+    let mut i = 0;
+    while i + 1 < n { let (sz, p) = (TRACE_LOG[i].load(Ordering::SeqCst), TRACE_LOG[i + 1].load(Ordering::SeqCst)); if sz > 0 { live.push((sz, p)); } else if let Some(k) = live.iter().position(|x| x.1 == p) { live.remove(k); } i += 2; }
+    live
+}
 
 unsafe impl GlobalAlloc for Counting {
     unsafe fn alloc(&self, l: Layout) -> *mut u8 {
@@ -16,10 +34,12 @@ unsafe impl GlobalAlloc for Counting {
             LIVE_BYTES.fetch_add(l.size() as i64, Ordering::Relaxed);
             LIVE_BLOCKS.fetch_add(1, Ordering::Relaxed);
             TOTAL_ALLOCS.fetch_add(1, Ordering::Relaxed);
+            trace(l.size() as i64, p);
         }
         p
     }
     unsafe fn dealloc(&self, p: *mut u8, l: Layout) {
+        trace(-(l.size() as i64), p);
         LIVE_BYTES.fetch_sub(l.size() as i64, Ordering::Relaxed);
         LIVE_BLOCKS.fetch_sub(1, Ordering::Relaxed);
         System.dealloc(p, l)
